@@ -8,6 +8,7 @@ import (
 
 	"github.com/bnb-chain/tss-lib/v2/crypto"
 	"github.com/bnb-chain/tss-lib/v2/crypto/mta"
+	"github.com/bnb-chain/tss-lib/v2/crypto/vss"
 	eckg "github.com/bnb-chain/tss-lib/v2/ecdsa/keygen"
 	edkg "github.com/bnb-chain/tss-lib/v2/eddsa/keygen"
 	"github.com/bnb-chain/tss-lib/v2/tss"
@@ -98,6 +99,7 @@ func driveMtA(rc *RunCtx) {
 		var beta, cB *big.Int
 		var wireB [][]byte
 		var Bpt *crypto.ECPoint
+		var directB *mta.ProofBobWC
 		if wc {
 			if b.Sign() == 0 {
 				// b*G is the identity: the library cannot represent it; not an MtA matter
@@ -105,13 +107,24 @@ func driveMtA(rc *RunCtx) {
 				return
 			}
 			Bpt = crypto.ScalarBaseMult(ec, b)
-			if alter == "wrong-point" {
+			if alter == "wrong-point" || alter == "unchecked-proof" {
 				Bpt = crypto.ScalarBaseMult(ec, new(big.Int).Add(b, big.NewInt(1)))
 			}
 			var pfB *mta.ProofBobWC
 			bpt := crypto.ScalarBaseMult(ec, b)
-			beta, cB, _, pfB, err = mta.BobMidWC(session, ec, &A.PaillierSK.PublicKey, pfA2, b, cAw, A.NTildei, A.H1i, A.H2i, B.NTildei, B.H1i, B.H2i, bpt, randB)
-			if err == nil {
+			if alter == "unchecked-proof" {
+				// a deviating Bob answers the with-check exchange with the proof of the exchange without check
+				// (which says nothing about his point) in the shape the library's own prover gives it. The
+				// wire parser refuses that shape, so this reaches Alice only through the package API.
+				var nc *mta.ProofBob
+				beta, cB, _, nc, err = mta.BobMid(session, ec, &A.PaillierSK.PublicKey, pfA2, b, cAw, A.NTildei, A.H1i, A.H2i, B.NTildei, B.H1i, B.H2i, randB)
+				if err == nil {
+					directB = &mta.ProofBobWC{ProofBob: nc, U: crypto.NewECPointNoCurveCheck(ec, big.NewInt(0), big.NewInt(0))}
+				}
+			} else {
+				beta, cB, _, pfB, err = mta.BobMidWC(session, ec, &A.PaillierSK.PublicKey, pfA2, b, cAw, A.NTildei, A.H1i, A.H2i, B.NTildei, B.H1i, B.H2i, bpt, randB)
+			}
+			if err == nil && pfB != nil {
 				p := pfB.Bytes()
 				for i := range p {
 					wireB = append(wireB, append([]byte{}, p[i]...))
@@ -151,10 +164,13 @@ func driveMtA(rc *RunCtx) {
 		// Alice end
 		var alpha *big.Int
 		if wc {
-			pfB2, err := mta.ProofBobWCFromBytes(ec, wireB)
-			if err != nil {
-				fail = fmt.Sprintf("Bob's proof does not parse back from its wire parts: %v", err)
-				return
+			pfB2 := directB
+			if pfB2 == nil {
+				pfB2, err = mta.ProofBobWCFromBytes(ec, wireB)
+				if err != nil {
+					fail = fmt.Sprintf("Bob's proof does not parse back from its wire parts: %v", err)
+					return
+				}
 			}
 			alpha, err = mta.AliceEndWC(session, ec, &A.PaillierSK.PublicKey, pfB2, Bpt, cA, cBw, A.NTildei, A.H1i, A.H2i, A.PaillierSK)
 			if err != nil {
@@ -231,11 +247,11 @@ func genC13(tier string, seed uint64, run int) *Scenario {
 func genMtA(seed uint64, run int) *Scenario {
 	r := rand.New(rand.NewPCG(seedFor(seed, "C13", run, "gen"), 1))
 	vals := []string{"zero", "one", "qm1", "rand"}
-	alters := []string{"none", "none", "none", "cA+1", "cA-rand", "cA+N", "cB+1", "cB+N", "cB-rand", "wrong-point"}
+	alters := []string{"cA+1", "cA-rand", "cA+N", "cB+1", "cB+N", "cB-rand", "wrong-point", "unchecked-proof"}
 	k := run / 3
 	// (a,b) cycles fastest so that every quick run covers all sixteen combinations; the ordered pair
 	// of parameter sets cycles next
-	p := map[string]interface{}{"alice": (k / 16) % 5, "bob": ((k/16)/5 + 1 + (k/16)%5) % 5, "a": vals[k%4], "b": vals[(k/4)%4], "wc": r.IntN(2) == 0, "alter": alters[r.IntN(len(alters))]}
+	p := map[string]interface{}{"alice": (k / 16) % 5, "bob": ((k/16)/5 + 1 + (k/16)%5) % 5, "a": vals[k%4], "b": vals[(k/4)%4], "wc": r.IntN(2) == 0, "alter": alters[(k%48+k/48)%len(alters)]}
 	if k%48 < 32 {
 		// two thirds of the exchanges are fault-free identity checks: all sixteen (a,b) without and with the point check
 		p["alter"] = "none"
@@ -244,8 +260,11 @@ func genMtA(seed uint64, run int) *Scenario {
 	if p["alice"] == p["bob"] {
 		p["bob"] = (p["alice"].(int) + 1) % 5
 	}
-	if p["alter"] == "wrong-point" {
+	if p["alter"] == "wrong-point" || p["alter"] == "unchecked-proof" {
 		p["wc"] = true
+		if p["b"] == "zero" {
+			p["b"] = "one" // b*G must be representable
+		}
 	}
 	return &Scenario{Check: "C13", Kind: "mta", Seed: seed, Run: run, P: p}
 }
@@ -356,6 +375,38 @@ func driveVSSWire(rc *RunCtx) {
 					return
 				}
 				rc.Res.Probes["reconstructions_t+1"]++
+			}
+		}
+		// the library's own reconstruction over the same wire shares: every subset size from t+1 up to all
+		// of them gives the secret, t of them do not
+		libCurve := tss.Edwards()
+		if pr.Curve == "ec" {
+			libCurve = tss.S256()
+		}
+		libRecon := func(sub []int) (*big.Int, error) {
+			shs := make(vss.Shares, len(sub))
+			for i, j := range sub {
+				shs[i] = &vss.Share{Threshold: t, ID: new(big.Int).Set(ids[j]), Share: new(big.Int).Set(vals[j])}
+			}
+			return shs.ReConstruct(libCurve)
+		}
+		for k := t + 1; k <= len(ids); k++ {
+			for _, sub := range subsets(len(ids), k, 6) {
+				s, err := libRecon(sub)
+				if err != nil || s == nil || !PtEq(GMul(g, new(big.Int).Mod(s, q), g.Base()), vs[0]) {
+					rc.Fail("reconstruction", "dealer %s: the library reconstructs %v from the %d shares %v (threshold %d, error %v): not the secret committed to in the first commitment", dealer.Name, s, k, sub, t, err)
+					return
+				}
+				rc.Res.Probes[fmt.Sprintf("library_reconstructions_t+%d", k-t)]++
+			}
+		}
+		if t >= 1 && len(ids) >= t {
+			for _, sub := range subsets(len(ids), t, 6) {
+				if s, err := libRecon(sub); err == nil && s != nil && PtEq(GMul(g, new(big.Int).Mod(s, q), g.Base()), vs[0]) {
+					rc.Fail("threshold", "dealer %s: the library reconstructs the secret from only t=%d shares %v", dealer.Name, t, sub)
+					return
+				}
+				rc.Res.Probes["library_non_reconstructions_t"]++
 			}
 		}
 		if t >= 1 && len(ids) >= t {
